@@ -156,14 +156,16 @@ type Exec struct {
 	startOnce     map[int]*sync.Once
 
 	// Bare programs: poison runs once, when the first user function is entered.
-	poison     func()
-	poisonOnce sync.Once
-	Poisoned   atomic.Bool
-	MidPoisons atomic.Int64  // argument calls of a BareMix program that ran (each overwrites the argument variables before it)
-	dummies    []interface{} // pointers handed out by PoisonPtr
-	late       []string
-	seen       [][2]uint64
-	children   []*Exec
+	poison           func()
+	poisonOnce       sync.Once
+	Poisoned         atomic.Bool
+	paramSeq         atomic.Int64
+	ParamsOutOfOrder atomic.Int64  // Params values asked for out of their order (or again)
+	MidPoisons       atomic.Int64  // argument calls of a BareMix program that ran (each overwrites the argument variables before it)
+	dummies          []interface{} // pointers handed out by PoisonPtr
+	late             []string
+	seen             [][2]uint64
+	children         []*Exec
 }
 
 // SetPoison registers the assignments that overwrite the argument variables of
@@ -373,7 +375,22 @@ func (x *Exec) Ctx() context.Context {
 	return x.ctx
 }
 
-func (x *Exec) Param(i int) uint64    { return x.Sc.Params[i] }
+// Param is the i-th Params value. The arguments of a directive are evaluated
+// once, in source order: the k-th call must ask for value k. Any other order
+// (or a second evaluation) yields a different token, which the functions that
+// consume the value then report.
+func (x *Exec) Param(i int) uint64 {
+	if x.Quiet || (x.Prog != nil && x.Prog.BareMix > 0) {
+		// (BareMix: some Params values are bound to variables before the
+		// directive, others are calls inside it)
+		return x.Sc.Params[i]
+	}
+	if n := int(x.paramSeq.Add(1)) - 1; n != i {
+		x.ParamsOutOfOrder.Add(1)
+		return x.Sc.Params[i] ^ 0x5A5A0
+	}
+	return x.Sc.Params[i]
+}
 func (x *Exec) Sentinel(i int) uint64 { return x.Sc.Sentinels[i] }
 func (x *Exec) Conc() int             { return x.Sc.Conc }
 func (x *Exec) COE() bool             { return x.Sc.COE }
@@ -478,6 +495,12 @@ func ErrValue(exec uint64, fn int, key uint64, kind int) error {
 		return &CtxLikeErr{Exec: exec, Fn: fn, Key: key}
 	case 5:
 		return fmt.Errorf("exec %d: function %d (key %d): lookup: %w", exec, fn, key, context.Canceled)
+	case 6:
+		// the bare sentinels: what a function returns that hands on the Err() of
+		// a context of its own (the directive's context is untouched by it)
+		return context.Canceled
+	case 7:
+		return context.DeadlineExceeded
 	}
 	return &CallErr{Exec: exec, Fn: fn, Key: key}
 }
